@@ -643,7 +643,7 @@ pub fn c06(run: &mut Run) {
                 for o in &ops {
                     match o {
                         BitOp::Bit(b) => { let _ = d.add_bit(*b); }
-                        BitOp::Clear => d.clear(),
+                        BitOp::Clear => { let _ = d.clear(); }
                     }
                 }
                 format!("{:?}", d)
